@@ -307,10 +307,18 @@ where
         POp::Mex => format!("{}", Decode::<P>::maybe_exhausted(&d.peek::<P>())),
         POp::MFull => format!("{}", Encode::<P>::maybe_full(&d.peek::<P>())),
         POp::Clone => {
+            // both forms of `Clone`: `clone()`, then `clone_from` into a coder with unrelated contents
             let c = d.take::<P>();
             let c2 = c.clone();
             drop(c);
-            d.put(c2);
+            let scratch: Vec<W> = [7u8, 1, 8, 2, 8, 1, 8, 2, 8, 4, 5, 9].iter().map(|&x| W::from(x).unwrap()).collect();
+            match ChainCoder::<W, S, Vec<W>, Vec<W>, P>::from_binary(scratch) {
+                Ok(mut c3) => {
+                    c3.clone_from(&c2);
+                    d.put(c3);
+                }
+                Err(_) => d.put(c2),
+            }
             "ok".into()
         }
         POp::Pos => {
